@@ -188,145 +188,7 @@ func checkC05(c *Check) {
 		}
 	}
 
-	// ---- R3 policy list is the configured list ; R4 override connections are not pooled
-	c.Rule("R3", "Target.Start starts every configured policy unless the TLS-Required override applies (message flag and administrator opt-in)", 1)
-	c.Rule("R4", "a connection opened without the policy list (override) is never returned to the pool", 2)
-	var overrideFields []*types.Var
-	if r := c.need("R3", remoteRel, "Target", "Start"); r != nil {
-		var loops []*ElemLoop
-		for _, l := range elemLoops(r.Info, r.FI.Decl.Body, func(e ast.Expr) bool { return isField(r.Info, e, "Target", "policies") }) {
-			if l.Whole {
-				loops = append(loops, l)
-			}
-		}
-		msg := ""
-		if len(loops) != 1 {
-			msg = "undecided: expected one loop over the configured policies"
-		} else {
-			// enclosing if conditions
-			var conds []ast.Expr
-			ast.Inspect(r.FI.Decl.Body, func(n ast.Node) bool {
-				if is, ok := n.(*ast.IfStmt); ok && posIn(is.Body, loops[0].Stmt.Pos()) {
-					conds = append(conds, is.Cond)
-				}
-				return true
-			})
-			if len(conds) > 1 {
-				msg = "the policy list is skipped under more than one condition"
-			}
-			for _, cd := range conds {
-				// a local flag defined once stands for its definition
-				var ex ast.Node = cd
-				ast.Inspect(cd, func(n ast.Node) bool {
-					if id, ok := n.(*ast.Ident); ok {
-						if o, ok := r.Info.Uses[id].(*types.Var); ok && !o.IsField() {
-							if def, n := localDef(r.Info, r.FI.Decl.Body, o); n == 1 && def != nil {
-								ex = def
-							}
-						}
-					}
-					return true
-				})
-				if !(mentionsField(r.Info, ex, "TLSRequireOverride") && mentionsField(r.Info, ex, "allowSecOverride")) {
-					msg = "the policy list is skipped on a condition other than TLSRequireOverride && allowSecOverride: " + exprStr(cd)
-				} else {
-					// both are needed: with only one of the two set the enclosing condition must let the policies run
-					for _, only := range []string{"TLSRequireOverride", "allowSecOverride"} {
-						var val func(atom ast.Expr) (bool, bool)
-						val = func(atom ast.Expr) (bool, bool) {
-							atom = ast.Unparen(atom)
-							if sx, ok := atom.(*ast.SelectorExpr); ok && fieldOf(r.Info, sx) != nil {
-								switch sx.Sel.Name {
-								case "TLSRequireOverride", "allowSecOverride":
-									return sx.Sel.Name == only, true
-								}
-							}
-							if id, ok := atom.(*ast.Ident); ok {
-								if o, ok := r.Info.Uses[id].(*types.Var); ok && !o.IsField() {
-									if def, n := localDef(r.Info, r.FI.Decl.Body, o); n == 1 && def != nil {
-										return evalBoolUnder(def, val)
-									}
-								}
-							}
-							return false, false
-						}
-						if v, known := evalBoolUnder(cd, val); !known || !v {
-							msg = "the security policies are skipped with only " + only + " set (both the message's TLS-Required: No and the administrator's opt-in are required): " + exprStr(cd)
-						}
-					}
-				}
-			}
-			inspectNoLit(loops[0].Body, func(x ast.Node) bool {
-				if b, ok := x.(*ast.BranchStmt); ok {
-					msg = "the loop over configured policies can skip one (" + b.Tok.String() + ")"
-				}
-				return true
-			})
-		}
-		c.Hold("R3", "Target.Start:policies", r.FI.Decl.Pos(), msg == "", msg)
-		// fields of remoteDelivery set from the override condition in the returned literal
-		ast.Inspect(r.FI.Decl.Body, func(n ast.Node) bool {
-			cl, ok := n.(*ast.CompositeLit)
-			if !ok || namedOf(r.Info.TypeOf(cl)) == nil || objName(namedOf(r.Info.TypeOf(cl)).Obj()) != "remoteDelivery" {
-				return true
-			}
-			for _, el := range cl.Elts {
-				kv, ok := el.(*ast.KeyValueExpr)
-				if !ok {
-					continue
-				}
-				val := kv.Value
-				if o := objOf(r.Info, val); o != nil {
-					if def, n := localDef(r.Info, r.FI.Decl.Body, o); n == 1 && def != nil {
-						val = def
-					}
-				}
-				if mentionsField(r.Info, val, "TLSRequireOverride") && mentionsField(r.Info, val, "allowSecOverride") {
-					if id, ok := kv.Key.(*ast.Ident); ok {
-						if fv, ok := r.Info.Uses[id].(*types.Var); ok {
-							overrideFields = append(overrideFields, fv)
-						}
-					}
-				}
-			}
-			return true
-		})
-	}
-	// R4: every pool.Return in the package is unreachable once the edges "not overridden" are removed
-	isReturn := calling("~/internal/smtpconn/pool.P.Return")
-	nRet := 0
-	p.AllFuncs([]*packagesPkg{pk}, func(fi *FuncInfo) {
-		r := &RuleCtx{C: c, FI: fi, F: p.FlowOfFunc(fi), Info: fi.Info()}
-		for _, pt := range r.Calls(isReturn) {
-			nRet++
-			c.SawFunc(fi.Name())
-			msg := ""
-			if len(overrideFields) == 0 {
-				msg = "connections opened for a `TLS-Required: No` message (no policy evaluated, possibly plaintext) are returned to the pool and handed to later messages for the same domain without any policy check: the delivery does not even record that it ran under the override"
-			} else {
-				avoid := r.F.AvoidImplying(func(atom ast.Expr) (bool, bool) {
-					if fv := fieldOf(r.Info, atom); fv != nil {
-						for _, of := range overrideFields {
-							if fv == of {
-								return false, true // edges establishing "override is false"
-							}
-						}
-					}
-					return false, false
-				})
-				if path, f := r.F.Reach(Query{From: r.Entry(), Inclusive: true, Target: isPt([]Pt{pt}), AvoidEdge: avoid}); f {
-					msg = "a connection can be returned to the pool although the delivery ran under the TLS-Required override (no policy was evaluated for it): " + r.F.Describe(path)
-				}
-			}
-			c.Hold("R4", fi.Name()+":pool.Return", r.Pos(pt), msg == "", msg)
-		}
-	})
-	if nRet == 0 {
-		c.HoldConst("R4", "remote:no-pooling", token.NoPos, true, "")
-	}
-	// pooled connections are taken only in connectionForDomain
-	gets := callers(calling("~/internal/smtpconn/pool.P.Get"))
-	c.Hold("R4", "pool.Get:callers", token.NoPos, len(gets) == 1 && gets["connectionForDomain"] == 1, "pooled connections are taken outside connectionForDomain")
+	c05Override(c)
 
 	// ---- R3b: where the override comes from
 	c.Rule("R3b", "the message flag that lets the policies be skipped (TLSRequireOverride) is set only on the edge where the message's TLS-Required header field equals No (RFC 8689) – nowhere else in the server", 2)
@@ -1002,4 +864,168 @@ func c05Quarantine(c *Check) {
 		any := len(r.F.Find(func(n ast.Node) bool { return sending(ptOfNode(r.F, n)) })) > 0
 		c.Hold("R8", "remoteDelivery."+m, r.FI.Decl.Pos(), !f && any, "a quarantined message can reach a sending call: "+r.F.Describe(path))
 	}
+}
+
+// c05Override: R3 / R4 (also evaluated by C13: a connection opened without the policy list – DANE never judged it –
+// must not come back from the pool for an ordinary message)
+func c05Override(c *Check) {
+	p := c.P
+	pk := p.Pkg(remoteRel)
+	if pk == nil {
+		return
+	}
+	info := pk.TypesInfo
+	_ = info
+	callers := func(pred CallPred) map[string]int {
+		out := map[string]int{}
+		p.AllFuncs([]*packagesPkg{pk}, func(fi *FuncInfo) {
+			ast.Inspect(fi.Decl.Body, func(n ast.Node) bool {
+				if call, ok := n.(*ast.CallExpr); ok && pred(fi.Info(), call) {
+					out[refName(fi.Obj)]++
+				}
+				return true
+			})
+		})
+		return out
+	}
+	// ---- R3 policy list is the configured list ; R4 override connections are not pooled
+	c.Rule("R3", "Target.Start starts every configured policy unless the TLS-Required override applies (message flag and administrator opt-in)", 1)
+	c.Rule("R4", "a connection opened without the policy list (override) is never returned to the pool", 2)
+	var overrideFields []*types.Var
+	if r := c.need("R3", remoteRel, "Target", "Start"); r != nil {
+		var loops []*ElemLoop
+		for _, l := range elemLoops(r.Info, r.FI.Decl.Body, func(e ast.Expr) bool { return isField(r.Info, e, "Target", "policies") }) {
+			if l.Whole {
+				loops = append(loops, l)
+			}
+		}
+		msg := ""
+		if len(loops) != 1 {
+			msg = "undecided: expected one loop over the configured policies"
+		} else {
+			// enclosing if conditions
+			var conds []ast.Expr
+			ast.Inspect(r.FI.Decl.Body, func(n ast.Node) bool {
+				if is, ok := n.(*ast.IfStmt); ok && posIn(is.Body, loops[0].Stmt.Pos()) {
+					conds = append(conds, is.Cond)
+				}
+				return true
+			})
+			if len(conds) > 1 {
+				msg = "the policy list is skipped under more than one condition"
+			}
+			for _, cd := range conds {
+				// a local flag defined once stands for its definition
+				var ex ast.Node = cd
+				ast.Inspect(cd, func(n ast.Node) bool {
+					if id, ok := n.(*ast.Ident); ok {
+						if o, ok := r.Info.Uses[id].(*types.Var); ok && !o.IsField() {
+							if def, n := localDef(r.Info, r.FI.Decl.Body, o); n == 1 && def != nil {
+								ex = def
+							}
+						}
+					}
+					return true
+				})
+				if !(mentionsField(r.Info, ex, "TLSRequireOverride") && mentionsField(r.Info, ex, "allowSecOverride")) {
+					msg = "the policy list is skipped on a condition other than TLSRequireOverride && allowSecOverride: " + exprStr(cd)
+				} else {
+					// both are needed: with only one of the two set the enclosing condition must let the policies run
+					for _, only := range []string{"TLSRequireOverride", "allowSecOverride"} {
+						var val func(atom ast.Expr) (bool, bool)
+						val = func(atom ast.Expr) (bool, bool) {
+							atom = ast.Unparen(atom)
+							if sx, ok := atom.(*ast.SelectorExpr); ok && fieldOf(r.Info, sx) != nil {
+								switch sx.Sel.Name {
+								case "TLSRequireOverride", "allowSecOverride":
+									return sx.Sel.Name == only, true
+								}
+							}
+							if id, ok := atom.(*ast.Ident); ok {
+								if o, ok := r.Info.Uses[id].(*types.Var); ok && !o.IsField() {
+									if def, n := localDef(r.Info, r.FI.Decl.Body, o); n == 1 && def != nil {
+										return evalBoolUnder(def, val)
+									}
+								}
+							}
+							return false, false
+						}
+						if v, known := evalBoolUnder(cd, val); !known || !v {
+							msg = "the security policies are skipped with only " + only + " set (both the message's TLS-Required: No and the administrator's opt-in are required): " + exprStr(cd)
+						}
+					}
+				}
+			}
+			inspectNoLit(loops[0].Body, func(x ast.Node) bool {
+				if b, ok := x.(*ast.BranchStmt); ok {
+					msg = "the loop over configured policies can skip one (" + b.Tok.String() + ")"
+				}
+				return true
+			})
+		}
+		c.Hold("R3", "Target.Start:policies", r.FI.Decl.Pos(), msg == "", msg)
+		// fields of remoteDelivery set from the override condition in the returned literal
+		ast.Inspect(r.FI.Decl.Body, func(n ast.Node) bool {
+			cl, ok := n.(*ast.CompositeLit)
+			if !ok || namedOf(r.Info.TypeOf(cl)) == nil || objName(namedOf(r.Info.TypeOf(cl)).Obj()) != "remoteDelivery" {
+				return true
+			}
+			for _, el := range cl.Elts {
+				kv, ok := el.(*ast.KeyValueExpr)
+				if !ok {
+					continue
+				}
+				val := kv.Value
+				if o := objOf(r.Info, val); o != nil {
+					if def, n := localDef(r.Info, r.FI.Decl.Body, o); n == 1 && def != nil {
+						val = def
+					}
+				}
+				if mentionsField(r.Info, val, "TLSRequireOverride") && mentionsField(r.Info, val, "allowSecOverride") {
+					if id, ok := kv.Key.(*ast.Ident); ok {
+						if fv, ok := r.Info.Uses[id].(*types.Var); ok {
+							overrideFields = append(overrideFields, fv)
+						}
+					}
+				}
+			}
+			return true
+		})
+	}
+	// R4: every pool.Return in the package is unreachable once the edges "not overridden" are removed
+	isReturn := calling("~/internal/smtpconn/pool.P.Return")
+	nRet := 0
+	p.AllFuncs([]*packagesPkg{pk}, func(fi *FuncInfo) {
+		r := &RuleCtx{C: c, FI: fi, F: p.FlowOfFunc(fi), Info: fi.Info()}
+		for _, pt := range r.Calls(isReturn) {
+			nRet++
+			c.SawFunc(fi.Name())
+			msg := ""
+			if len(overrideFields) == 0 {
+				msg = "connections opened for a `TLS-Required: No` message (no policy evaluated, possibly plaintext) are returned to the pool and handed to later messages for the same domain without any policy check: the delivery does not even record that it ran under the override"
+			} else {
+				avoid := r.F.AvoidImplying(func(atom ast.Expr) (bool, bool) {
+					if fv := fieldOf(r.Info, atom); fv != nil {
+						for _, of := range overrideFields {
+							if fv == of {
+								return false, true // edges establishing "override is false"
+							}
+						}
+					}
+					return false, false
+				})
+				if path, f := r.F.Reach(Query{From: r.Entry(), Inclusive: true, Target: isPt([]Pt{pt}), AvoidEdge: avoid}); f {
+					msg = "a connection can be returned to the pool although the delivery ran under the TLS-Required override (no policy was evaluated for it): " + r.F.Describe(path)
+				}
+			}
+			c.Hold("R4", fi.Name()+":pool.Return", r.Pos(pt), msg == "", msg)
+		}
+	})
+	if nRet == 0 {
+		c.HoldConst("R4", "remote:no-pooling", token.NoPos, true, "")
+	}
+	// pooled connections are taken only in connectionForDomain
+	gets := callers(calling("~/internal/smtpconn/pool.P.Get"))
+	c.Hold("R4", "pool.Get:callers", token.NoPos, len(gets) == 1 && gets["connectionForDomain"] == 1, "pooled connections are taken outside connectionForDomain")
+
 }
